@@ -205,3 +205,7 @@ async fn stream_writer(
     log::debug!("Stream receiver is closed");
     Ok(())
 }
+
+#[cfg(it4innovations_hyperqueue_verif)]
+#[path = "../verif/stream_writer_access.rs"]
+pub mod verif_access;
